@@ -117,7 +117,7 @@ class H:
             ctx.fail(suite, 'cannot re-serialise a parsed foreign packet', dict(case, impl=repr(b1))); return
         b1 = b1[1]
         try:
-            t1, body1, whole1 = S.split_packets(b1)[0]
+            t1, body1, whole1 = S.split_packets(b1 + TRAIL)[0]        # with following data: a header declaring MORE than was written swallows it
         except Exception as ex:
             ctx.fail(suite, 're-serialised packet is not well-formed', dict(case, out=b1.hex()[:300])); return
         if whole1 != b1 or t1 != tag:
